@@ -19,7 +19,7 @@ fn wrong_seeds(s: &Scalar, rng: &mut impl RngCore, dense: bool) -> Vec<(String, 
 
 pub fn run(ctx: &Ctx, rep: &mut Report) {
     let leg = if <P as Gx>::IS_FM { "fm" } else { "ris" };
-    let reps = if ctx.thorough() { 16 } else { 3 };
+    let reps = if ctx.thorough() { 120 } else { 3 };
     let mut id = 0usize;
     for (bi, &n) in BITS.iter().enumerate() {
         for ext in 1..=6usize {
